@@ -719,7 +719,7 @@ func pureOK(fn *ssa.Function) bool {
 		return true // synthetic wrappers, generic instantiations
 	}
 	switch fn.String() {
-	case "(*errors.errorString).Error":
+	case "(*errors.errorString).Error", "(*fmt.wrapError).Error", "(*fmt.wrapError).Unwrap":
 		return true
 	}
 	switch fn.Pkg.Pkg.Path() {
